@@ -33,6 +33,18 @@ CHECKS = {
    text="Stateful generated histories over the whole host-call alphabet, drawn online against the port's observed state so that deep states are reached, with boundary-lattice fields, frames to 2048 bytes, TLV sizes around every margin, mutated and raw frames, all port configurations and all three filters; oracle = every call returns (panic hook + catch_unwind) and no nested lock acquisition; run in a build with debug assertions + overflow checks and in a build without; saved failing inputs are replayed as a regression corpus.",
    note="evidence/C03.json is written by the checked-build run, evidence/C03.unchecked.json by the unchecked-build run of the same command. Configuration values outside what the daemon's config accepts are not generated.",
    technique="stateful property-based testing / fuzzing with a crash oracle in two build profiles, shrinking to a replay tape"),
+ "C08": dict(level="exploration", design="DESIGN.md §4 C08",
+   text="Stateful generated histories over instances with 1-3 ports in every combination of master-only / slave-only (static or toggled at run time) / E2E / P2P with invariants checked after every host call: at most one Slave port, is_steering consistent, every frequency/step call attributed (tagged clock handles) to a port that is or becomes Slave in that call, master-only never Slave, slave-only never Master (from the first completed BMCA after a run-time switch), Announce/Sync/Follow_Up/Delay_Resp only from a Master port, E2E Delay_Req only from the Slave port (frames decoded by the reference codec).",
+   note="Clock::set_properties is not counted as adjusting the clock.",
+   technique="stateful property-based testing with invariants after every step"),
+ "C07": dict(level="exploration", design="DESIGN.md §4 C07",
+   text="Two-run non-interference: a generated base history H is executed on two identically seeded instances, the second with noise frames inserted (each built from a frame that would have had an effect at that point and broken in exactly one way named by the statement); after every op of H the action lists, port states, five data sets, clock-call log, filter log, link delays and armed timers must be identical, and every inserted call must return no action and change nothing.",
+   note="Only the noise classes named in the statement are inserted.",
+   technique="metamorphic / differential property-based testing (lock-step runs with insertions)"),
+ "C05": dict(level="exploration", design="DESIGN.md §4 C05",
+   text="Differential testing against an independent implementation of IEEE 1588-2019 Figures 33/34/35 and Tables 30/33 with statime's documented deviations: generated multi-port cases (prior states via preludes, up to 4 candidates per port, same grandmaster via different paths, own-instance Announces, master-only/slave-only/faulty exclusions, permuted port and Announce order) plus an exhaustive single-candidate lattice; additional relations: maximality of the selected parent and order independence (every case is run a second time with reversed orders).",
+   note="Genuine ties are skipped; timePropertiesDS after M1/M2 is not asserted; candidates are arranged so that IEEE's and statime's qualification bookkeeping agree (that bookkeeping is C06's subject).",
+   technique="differential property-based testing against a reference BMCA + exhaustive small lattice + metamorphic order-independence"),
 }
 NA_REASON = "check not built yet in this round (design in DESIGN.md §4); will be claimed once its check exists"
 
